@@ -146,6 +146,15 @@ class Scheduler:
             self.stuck = True
             raise SchedulerAbort()
 
+    def checkpoint(self, tag):
+        """called by the scheduled code itself at call boundaries: lets a policy switch between two calls of one thread"""
+        me = self.current_index()
+        if me is None or not hasattr(self.policy, 'on_checkpoint'):
+            return
+        target = self.policy.on_checkpoint(self, me, tag)
+        if target is not None and target != me and not self.done[target] and self.blocked[target] is None:
+            self.switch(me, target)
+
     def unblock(self, lock):
         for j in range(len(self.blocked)):
             if self.blocked[j] is lock:
@@ -214,6 +223,25 @@ class PreemptAt:
         return self.points.get((me, step))
 
     def on_finish(self, s, me):
+        return None
+
+
+class PreemptThenReturnAtCall:
+    """A is preempted before its k-th line; B runs until it has finished its j-th call, then A runs to completion, then B continues."""
+
+    def __init__(self, a, k, b, j):
+        self.a, self.k, self.b, self.j = a, k, b, j
+        self.returned = False
+
+    def decide(self, s, me, step, code, line):
+        if me == self.a and step == self.k:
+            return self.b
+        return None
+
+    def on_checkpoint(self, s, me, tag):
+        if me == self.b and not self.returned and tag == self.j and s.steps[self.a] >= self.k and not s.done[self.a]:
+            self.returned = True
+            return self.a
         return None
 
 
